@@ -66,6 +66,11 @@ MUTANTS = [
     ('arr-rhs-column-instead-of-row', 'scikit_tt/data_driven/regression.py', "rhs = y_data[k, :]", "rhs = y_data[:, k]", 'fn:arr', ''),
     ('arr-wrong-solution-in-backward-sweep', 'scikit_tt/data_driven/regression.py', "                __arr_update_core(i, micro_matrix, rhs, solution[k], rcond, 'backward')", "                __arr_update_core(i, micro_matrix, rhs, solution[0], rcond, 'backward')", 'fn:arr', '*'),
     ('arr-counter-renamed (harmless)', 'scikit_tt/data_driven/regression.py', "counter", "n_done", 'fn:arr', None),
+    ('evp-deflation-in-place-add (pre-fix behaviour)', 'scikit_tt/solvers/evp.py', "micro_op = micro_op + shift*tmp.dot(np.conjugate(tmp.T))", "micro_op += shift*tmp.dot(np.conjugate(tmp.T))", 'fn:__construct_micro_matrices', 'no-complex-into-real'),
+    ('evp-deflation-projector-conjugated-on-the-wrong-side', 'scikit_tt/solvers/evp.py', "micro_op = micro_op + shift*tmp.dot(np.conjugate(tmp.T))", "micro_op = micro_op + shift*np.conjugate(tmp).dot(tmp.T)", 'fn:__construct_micro_matrices', 'sesquilinear-structure'),
+    ('evp-deflation-left-stack-without-conjugate', 'scikit_tt/solvers/evp.py', "stacks.previous_left[j][i] = np.tensordot(stacks.previous_left[j][i], np.conjugate(trains.solution.cores[i - 1][:, :, 0, :]), axes=([0, 1], [0, 1]))", "stacks.previous_left[j][i] = np.tensordot(stacks.previous_left[j][i], trains.solution.cores[i - 1][:, :, 0, :], axes=([0, 1], [0, 1]))", 'fn:__construct_left_stacks', 'sesquilinear-structure'),
+    ('evp-deflation-right-stack-reads-wrong-core', 'scikit_tt/solvers/evp.py', "stacks.previous_right[j][i] = np.tensordot(trains.previous[j].cores[i + 1][:, :, 0, :], stacks.previous_right[j][i], axes=([1, 2], [1, 2]))", "stacks.previous_right[j][i] = np.tensordot(trains.previous[j].cores[i][:, :, 0, :], stacks.previous_right[j][i], axes=([1, 2], [1, 2]))", 'fn:__construct_right_stacks', ''),
+    ('evp-deflation-stacks-shared-between-tensors', 'scikit_tt/solvers/evp.py', "    stacks.previous_right  = [[None] * operator.order for _ in range(len(previous))]", "    stacks.previous_right  = stacks.previous_left", 'fn:evp.als', '*'),
 ]
 
 
